@@ -2,9 +2,9 @@
 
 Monitor: offline checker over two logs.  Ground truth: while the kernel runs, the interpreter's observer
 logs, per loop level visit and from the *raw* coordinate/payload lists (never from the library's counters),
-which elements each operand presents, how a two-finger merge consumes them, which coordinates the
-populate offers, which of them already existed in the destination and at which raw index, and which were
-kept.  Library log: the CSV files written under the collection prefix / the consumed in-memory traces.
+which elements each operand presents, how a two-finger merge (possibly of lazily produced operands) or a
+leader-follower intersection consumes them, which coordinates the populate offers, which of them already
+existed in the destination and at which raw index, and which were kept.  Library log: the CSV files written under the collection prefix / the consumed in-memory traces.
 The checker validates header, stamp ordering, and matches rows to ground-truth events one-to-one in
 order; every kernel is run with flush thresholds 2, 3, 7, 1000 and once with consumable traces and all
 five row sequences must be identical.
@@ -20,32 +20,44 @@ from fvmon import kernels, gen
 from fvmon.observe import content, unbox
 
 SPEC = {
-    "anchors": ["fibertree.core.metrics:Metrics.addUse", "fibertree.core.metrics:Metrics.registerRank", "fibertree.core.metrics:Metrics._startTrace", "fibertree.core.metrics:Metrics.incIter", "fibertree.core.metrics:Metrics.endIter", "fibertree.core.metrics:Metrics._writeTrace", "fibertree.core.metrics:Metrics.consumeTrace", "fibertree.core.metrics:Metrics.associateShape", "fibertree.core.iterators:iterRange", "fibertree.core.iterators:__and__", "fibertree.core.iterators:__lshift__", "fibertree.core.fiber:Fiber.project"],
-    "rule": ("case = one kernel from the C06 family restricted to at most two operands per loop level (two-finger "
-             "style), any loop order, optional tiling, operands canonical or holding explicit defaults, optional "
-             "U-format ranks, output empty or pre-populated (so populates are appending, revisiting or inserting), "
-             "with every trace type of every loop rank registered (iter, intersect_i, populate_i, populate_read_i, "
-             "populate_write_i), plus 1-D projection (convolution-like) kernels with project_i traces.  Non-trivial "
+    "anchors": ["fibertree.core.metrics:Metrics.addUse", "fibertree.core.metrics:Metrics.registerRank", "fibertree.core.metrics:Metrics._startTrace", "fibertree.core.metrics:Metrics.incIter", "fibertree.core.metrics:Metrics.endIter", "fibertree.core.metrics:Metrics._writeTrace", "fibertree.core.metrics:Metrics.consumeTrace", "fibertree.core.metrics:Metrics.associateShape", "fibertree.core.iterators:iterRange", "fibertree.core.iterators:__and__", "fibertree.core.iterators:__lshift__", "fibertree.core.fiber:Fiber.project",
+                "fibertree.core.iterators:intersection", "fibertree.core.iterators:iterRangeShapeRef", "fibertree.core.fiber:Fiber.getPayload", "fibertree.core.fiber:Fiber.getPayloadRef"],
+    "rule": ("case = one kernel from the C06 family with up to four operands co-iterated per loop level, written as a chain of "
+             "`&`, as one Fiber.intersection(...) or as a leader-follower intersection, any loop order, optional tiling, operands "
+             "canonical or holding explicit defaults, optional U-format ranks, output empty or pre-populated (so populates are "
+             "appending, revisiting or inserting), with every trace type of every loop rank registered (iter, intersect_i, "
+             "populate_i, populate_read_i, populate_write_i); or a hand-written two-level nest whose outer loop is sparse or a "
+             "dense by-reference walk of the output (iterShapeRef / iterActiveShapeRef / iterRangeShapeRef) and whose inner operand "
+             "expression (1-3 operands, every nesting of `&` / Fiber.intersection / leader-follower) is built inside or ahead of "
+             "the collection; plus 1-D projection (convolution-like) kernels with project_i traces.  Non-trivial "
              "= at least 2 trace files with at least 2 data rows each; distinct = distinct case."),
     "shards": {"quick": 16, "thorough": 16},
     "min_counts": {"quick": {"evaluations": 100, "files_checked": 600, "rows_matched": 1500, "flush_variants_compared": 300,
                              "inserting_visits": 20, "noninserting_visits": 300, "project_rows": 30, "startpos_traces": 30, "bounded_nests": 30,
-                             "projections_with_start_pos": 60, "stale_file_sessions": 30}},
+                             "projections_with_start_pos": 60, "stale_file_sessions": 30,
+                             "nested_intersection_visits": 60, "leader_follower_visits": 50, "wide_coiteration_visits": 70,
+                             "dense_ref_outer_nests": 25, "prepared_ahead_nests": 20, "prepared_ahead_leader_follower_nests": 6}},
     "assumptions": [
-        "traced loop nests use at most two operands per loop level (one & per level, optionally under one <<) so each trace file maps to one operand by the label rule; integer coordinates",
+        "label rule (which intersect_i / populate_i file belongs to which operand), derived from the library's behaviour on the unchanged tree: labels are handed out per loop rank in the order the operators start - a populate names its destination and source first, the outermost intersection names its operands next, an intersection nested inside one of its operands names its own when it is first pulled (left operand before right); a leader-follower intersection names leader then followers; integer coordinates",
+        "an access in a two-finger intersection = an element of an operand that was compared and consumed, or the one left at the head of the unexhausted operand when the merge ends; a lazy operand is pulled on demand, so elements it never had to produce are not accesses",
+        "a leader-follower intersection reads every leader element once and probes every follower once per leader element; a probe that finds the element is addressed by that element's index, a probe that finds nothing addresses no element and only its coordinate is judged; followers are compressed-format fibers",
+        "an outer loop that walks the output densely by reference publishes its coordinate to the traces of the inner ranks; its own iter trace is not judged (next assumption)",
         "destination-side traces of an inserting populate (first source coordinate below the destination's maximum, compressed destination) are only required to be stamp-ordered and complete",
         "a loop level driven directly by the dense iterator of a single uncompressed operand emits no iter rows; its iter trace is not judged",
         "position of an element of a lazily produced fiber (a & b, z << a) is its ordinal in that lazy sequence; position in an uncompressed-format fiber is the offset in its active range",
     ],
 }
 
-ALL_TYPES = ["iter", "intersect_0", "intersect_1", "intersect_2", "intersect_3", "populate_1", "populate_read_0", "populate_write_0"]
-FAMS = [f for f in kernels.FAMILIES if len(f[0]) <= 2]
+ALL_TYPES = ["iter"] + [f"intersect_{i}" for i in range(8)] + ["populate_1", "populate_read_0", "populate_write_0"]
+FAMS = list(kernels.FAMILIES)
 
 
 def generate(rng, tier, shard, nshards, mon):
-    n = (720 if tier == "quick" else 40000) // nshards
+    n = (880 if tier == "quick" else 48000) // nshards
     for i in range(n):
+        if i % 10 == 2:
+            yield _gen_nest2(rng)
+            continue
         if i % 10 == 1:
             # a single traced fiber iterated from a (valid) saved position
             yield {"kind": "startpos", "f": gen.rand_leaf_spec(rng, rng.randint(2, 10), 0.7, 0.25, 0), "r": rng.randrange(1 << 16),
@@ -75,8 +87,11 @@ def generate(rng, tier, shard, nshards, mon):
                    # a (valid) start position for the projection, plain or boxed
                    "sp": rng.choice(["none", "plain", "boxed", "boxed"]), "spr": rng.randrange(1 << 16)}
             continue
-        spec = kernels.rand_spec(rng, family=rng.choice(FAMS), tiles=True)
-        spec["style"] = "two-finger"
+        # up to four operands co-iterated on one rank: written as a chain of `&`, as one Fiber.intersection(...)
+        # (two-finger) or as a leader-follower intersection
+        spec = kernels.rand_spec(rng, family=rng.choice(FAMS if rng.random() < 0.65 else kernels.FAMILIES3), tiles=True)
+        spec["style"] = "leader-follower" if rng.random() < 0.25 else "two-finger"
+        nested_and = rng.random() < 0.6
         lv = spec["order"]
         if rng.random() < 0.4:
             fm = []
@@ -92,6 +107,9 @@ def generate(rng, tier, shard, nshards, mon):
                 part = [n for n, idx in spec["ops"] if v in kernels.loop_vars_of(idx, spec)]
                 if name != "Z" and len(part) == 1 and v not in zl0:
                     continue
+                # a follower is probed by coordinate, not walked: its declared format plays no role (see assumptions)
+                if name != "Z" and spec["style"] == "leader-follower":
+                    continue
                 keep.append([name, r])
             spec["fmts"] = keep
         zl = sorted(kernels.loop_vars_of(spec["out"], spec), key=lv.index)
@@ -103,7 +121,35 @@ def generate(rng, tier, shard, nshards, mon):
             for name, idx in spec["ops"]:
                 if len(idx) >= 1 and rng.random() < 0.7:
                     dirty[name] = rng.randrange(1 << 16)
-        yield {"kind": "kernel", "spec": spec, "dirty": dirty}
+        yield {"kind": "kernel", "spec": spec, "dirty": dirty, "nested_and": nested_and}
+
+
+EXPRS = {1: [0],
+         2: [["and", 0, 1], ["flat", 0, 1], ["lf", 0, 1]],
+         3: [["and", ["and", 0, 1], 2], ["and", 0, ["and", 1, 2]], ["flat", 0, 1, 2], ["lf", 0, 1, 2],
+             ["and", ["lf", 0, 1], 2], ["and", 0, ["lf", 1, 2]]]}
+
+
+def _gen_nest2(rng):
+    """Two-level nest written by hand: outer loop sparse or a dense by-reference walk of the output, inner operand
+    expression of one to three operands in every spelling, built inside or ahead of the collection."""
+    M, K = rng.randint(2, 4), rng.randint(2, 7)
+    nops = rng.choice([1, 2, 2, 3, 3, 3])
+    ops = {}
+    for j, name in enumerate("ABC"[:nops]):
+        dim = 2 if j == 0 else rng.choice([1, 2])
+        dens = rng.choice([0.5, 0.8, 1.0])
+        ops[name] = [dim, gen.rand_tree_spec(rng, [M, K], dens, 0.0, 0) if dim == 2 else gen.rand_leaf_spec(rng, K, dens, 0.0, 0)]
+    outer = rng.choice(["sparse", "zshape", "zactive", "zrange"])
+    populate = rng.random() < (0.5 if outer == "sparse" else 0.8)
+    lo = rng.randint(0, M - 1)
+    case = {"kind": "nest2", "M": M, "K": K, "ops": ops, "expr": rng.choice(EXPRS[nops]), "outer": outer, "populate": populate,
+            "prepared": rng.random() < 0.5, "range": [lo, rng.randint(lo + 1, M), rng.choice([1, 1, 2])],
+            "zinit": gen.rand_tree_spec(rng, [M, K], 0.5, 0.0, 0) if (populate and rng.random() < 0.4) else None,
+            "zfmt": populate and rng.random() < 0.2, "dirty": {}}
+    if rng.random() < 0.3:
+        case["dirty"] = {name: rng.randrange(1 << 16) for name in ops if rng.random() < 0.6}
+    return case
 
 
 # ------------------------------------------------------------------------------------------
@@ -132,12 +178,44 @@ def _present(f):
     return out
 
 
+class _Labels:
+    """Operand labels of one loop rank: handed out in the order the operators start (see SPEC assumptions)."""
+
+    def __init__(self, first):
+        self.n = first
+
+    def take(self):
+        self.n += 1
+        return self.n - 1
+
+
+def _chain(n):
+    """((0 & 1) & 2) & ... : the expression a k-operand two-finger co-iteration is written as."""
+    e = ["and", 0, 1]
+    for i in range(2, n):
+        e = ["and", e, i]
+    return e
+
+
+def _has_nested(e):
+    return isinstance(e, list) and e[0] == "and" and any(isinstance(x, list) for x in e[1:])
+
+
+def _has_lf(e):
+    return isinstance(e, list) and (e[0] == "lf" or any(_has_lf(x) for x in e[1:]))
+
+
 class _GT(kernels.Observer):
+    """Ground truth.  An operand expression is an int (index into the level's fibers), ["and", x, y] (lazy
+    two-finger intersection of two expressions) or ["lf", i, j, ...] (leader-follower intersection of plain
+    fibers, leader first)."""
+
     def __init__(self, spec, lvars, zl):
         self.spec, self.lvars, self.zl = spec, lvars, zl
         self.exp = {}           # (rank, type) -> [visit dict]
         self.stack = []
         self.dense_driven = set()
+        self.stats = {"nested": 0, "lf": 0, "wide": 0}
 
     def _visit(self, R, tt, prefix, **kw):
         v = {"prefix": tuple(prefix), "rows": [], "inserting": False}
@@ -145,42 +223,79 @@ class _GT(kernels.Observer):
         self.exp.setdefault((R, tt), []).append(v)
         return v
 
+    def _stream(self, R, e, fibers, labels, point):
+        """Elements (coord, index, ordinal) the expression presents to its consumer, produced on demand exactly
+        as a lazy fiber is; every access to an operand is appended to the visit of that operand's trace."""
+        if isinstance(e, int):
+            yield from _present(fibers[e])
+            return
+        if e[0] == "lf":
+            vs = [self._visit(R, f"intersect_{labels.take()}", point) for _ in e[1:]]
+            followers = [fibers[i] for i in e[2:]]
+            for k, el in enumerate(_present(fibers[e[1]])):
+                vs[0]["rows"].append(el)
+                for v, f in zip(vs[1:], followers):
+                    # a probe that finds the element addresses it; a probe that misses addresses no element,
+                    # only its coordinate is judged
+                    v["rows"].append((el[0], f.coords.index(el[0]) if el[0] in f.coords else None, None))
+                yield (el[0], k, k)
+            return
+        va = self._visit(R, f"intersect_{labels.take()}", point)
+        vb = self._visit(R, f"intersect_{labels.take()}", point)
+        A = self._stream(R, e[1], fibers, labels, point)
+        B = self._stream(R, e[2], fibers, labels, point)
+        a, b = next(A, None), next(B, None)
+        k = 0
+        while a is not None and b is not None:
+            if a[0] == b[0]:
+                va["rows"].append(a)
+                vb["rows"].append(b)
+                yield (a[0], k, k)
+                k += 1
+                a, b = next(A, None), next(B, None)
+            elif a[0] < b[0]:
+                va["rows"].append(a)
+                a = next(A, None)
+            else:
+                vb["rows"].append(b)
+                b = next(B, None)
+        if a is not None:
+            va["rows"].append(a)
+        if b is not None:
+            vb["rows"].append(b)
+
     def level_start(self, d, var, part, cur, zcur, is_out, point):
-        R = kernels.rid(var)
-        fibers = [cur[n] for n in part]
-        pres = [_present(f) for f in fibers]
+        n = len(part)
+        if n == 1:
+            e = 0
+        elif self.spec["style"] == "leader-follower":
+            e = ["lf"] + list(range(n))
+        else:
+            e = _chain(n)       # `a & b & c` and Fiber.intersection(a, b, c) are the same expression
+        self.start_level(kernels.rid(var), [cur[x] for x in part], zcur, is_out, point, e)
+
+    def start_dense(self, R, point):
+        """A level that walks the output densely by reference (iterShapeRef & co.): it publishes its coordinate
+        to the inner ranks but has no traced accesses of its own."""
+        self.dense_driven.add(R)
+        self.stack.append({"R": R, "is_out": False, "dense": True, "prev": None})
+
+    def start_level(self, R, fibers, zcur, is_out, point, e):
         fr = {"R": R, "is_out": is_out, "z": zcur if is_out else None, "k": 0, "prev": None, "prefix": list(point)}
         fr["iter"] = self._visit(R, "iter", point)
-        fr["eager_driver"] = fibers[0] if (len(fibers) == 1 and not is_out) else None
-        if fr["eager_driver"] is not None and _fmt_of(fibers[0]) == "U":
+        single = isinstance(e, int)
+        fr["eager_driver"] = fibers[e] if (single and not is_out) else None
+        if fr["eager_driver"] is not None and _fmt_of(fr["eager_driver"]) == "U":
             self.dense_driven.add(R)
-        if len(fibers) == 2:
-            a, b = pres
-            la, lb = ("intersect_2", "intersect_3") if is_out else ("intersect_0", "intersect_1")
-            va, vb = self._visit(R, la, point), self._visit(R, lb, point)
-            i = j = 0
-            offered = []
-            while i < len(a) and j < len(b):
-                if a[i][0] == b[j][0]:
-                    va["rows"].append(a[i])
-                    vb["rows"].append(b[j])
-                    offered.append(a[i][0])
-                    i += 1
-                    j += 1
-                elif a[i][0] < b[j][0]:
-                    va["rows"].append(a[i])
-                    i += 1
-                else:
-                    vb["rows"].append(b[j])
-                    j += 1
-            if i < len(a):
-                va["rows"].append(a[i])
-            if j < len(b):
-                vb["rows"].append(b[j])
-            src_rows = [(c, k, k) for k, c in enumerate(offered)]
+        if single:
+            src_rows = list(_present(fibers[e]))
         else:
-            offered = [c for c, _, _ in pres[0]]
-            src_rows = list(pres[0])
+            # the populate operator (if any) starts first and names its two operands 0 and 1
+            src_rows = list(self._stream(R, e, fibers, _Labels(2 if is_out else 0), point))
+            self.stats["nested"] += _has_nested(e)
+            self.stats["lf"] += _has_lf(e)
+            self.stats["wide"] += len(fibers) > 2
+        offered = [c for c, _, _ in src_rows]
         if is_out:
             z = zcur
             vs = self._visit(R, "populate_1", point)
@@ -203,6 +318,8 @@ class _GT(kernels.Observer):
 
     def body(self, d, var, c, point):
         fr = self.stack[-1]
+        if fr.get("dense"):
+            return
         self._finalize_prev(fr)
         k = fr["k"]
         if fr["eager_driver"] is not None:
@@ -243,12 +360,108 @@ def _apply_dirty(tensors, dirty):
                     f.getPayloadRef(c)
 
 
-def _run(case, prefix, ncu, consumable):
+def _flat(p):
+    p = Payload.get(p)
+    if isinstance(p, tuple):
+        for x in p:
+            yield from _flat(x)
+    else:
+        yield p
+
+
+def _build_expr(e, fibers):
+    """The library expression for an operand expression tree (see _GT)."""
+    if isinstance(e, int):
+        return fibers[e]
+    if e[0] == "lf":
+        return Fiber.intersection(*[fibers[i] for i in e[1:]], style="leader-follower")
+    if e[0] == "flat":
+        return Fiber.intersection(*[fibers[i] for i in e[1:]])
+    return _build_expr(e[1], fibers) & _build_expr(e[2], fibers)
+
+
+def _model_expr(e):
+    """Fiber.intersection(a, b, c) is by definition the chain (a & b) & c."""
+    if isinstance(e, list) and e[0] == "flat":
+        m = ["and", e[1], e[2]]
+        for i in e[3:]:
+            m = ["and", m, i]
+        return m
+    if isinstance(e, list) and e[0] == "and":
+        return ["and", _model_expr(e[1]), _model_expr(e[2])]
+    return e
+
+
+def _prep_kernel(case):
+    """-> (ground truth recorder, loop ranks, thunk running the loop nest); called before the collection starts"""
     spec = case["spec"]
     tensors, Z, lvars, zl = kernels.build(spec, zinit=spec.get("zinit"))
     _apply_dirty(tensors, case.get("dirty", {}))
     gt = _GT(spec, lvars, zl)
     ranks = [kernels.rid(v) for v in spec["order"]]
+    return gt, ranks, lambda: kernels.execute(spec, tensors, Z, lvars, zl, observer=gt, nested_and=case.get("nested_and", True))
+
+
+def _prep_nest2(case):
+    """for m: for k: nest written by hand.  The outer loop is driven by the first operand (optionally under a
+    populate of Z) or by a dense by-reference walk of the output (iterShapeRef / iterActiveShapeRef /
+    iterRangeShapeRef); the inner operand expressions are built inline or ahead of the collection."""
+    M, K = case["M"], case["K"]
+    ops = {}
+    for name, (dim, ts) in case["ops"].items():
+        ids, shape = (["M", "K"], [M, K]) if dim == 2 else (["K"], [K])
+        ops[name] = gen.tensor_from_spec(ts, ids, shape=shape, default=0, name=name)
+    _apply_dirty(ops, case.get("dirty", {}))
+    names = list(case["ops"])
+    if case.get("zinit"):
+        Z = gen.tensor_from_spec(case["zinit"], ["M", "K"], shape=[M, K], default=0, name="Z", mutable=True)
+    else:
+        Z = Tensor(rank_ids=["M", "K"], shape=[M, K], name="Z")
+    if case.get("zfmt"):
+        Z.setFormat("K", "U")
+    z_m = Z.getRoot()
+    a_m = ops[names[0]].getRoot()
+    outer, populate, e = case["outer"], case["populate"], case["expr"]
+    lo, hi, step = case.get("range", [0, M, 1])
+    ms = list(a_m.coords) if outer == "sparse" else list(range(M))
+    fibs = {}
+    for m in ms:
+        fibs[m] = [ops[n].getRoot().getPayload(m) if case["ops"][n][0] == 2 else ops[n].getRoot() for n in names]
+    # operand expressions prepared ahead of the traced loop nest are lazy: nothing is read until they are iterated
+    ahead = {m: _build_expr(e, fibs[m]) for m in ms} if case["prepared"] else None
+    gt = _GT({"style": "two-finger"}, None, None)
+    me = _model_expr(e)
+
+    def run():
+        if outer == "sparse":
+            gt.start_level("M", [a_m], z_m, populate, [], 0)
+            it = (z_m << a_m) if populate else a_m
+        else:
+            gt.start_dense("M", [])
+            it = {"zshape": z_m.iterShapeRef, "zactive": z_m.iterActiveShapeRef,
+                  "zrange": lambda: z_m.iterRangeShapeRef(lo, hi, step)}[outer]()
+        for m, p in it:
+            z_k = None
+            if outer != "sparse":
+                z_k = p
+            elif populate:
+                z_k, _ = p
+            gt.body(0, "m", m, [m])
+            gt.start_level("K", fibs[m], z_k, populate, [m], me)
+            co = ahead[m] if ahead is not None else _build_expr(e, fibs[m])
+            for k, q in ((z_k << co) if populate else co):
+                gt.body(1, "k", k, [m, k])
+                if populate:
+                    z_ref, q = q
+                    if all(v != 0 for v in _flat(q)):
+                        z_ref += 100
+            gt.level_end(1, "k", [m])
+        gt.level_end(0, "m", [])
+    return gt, ["M", "K"], run
+
+
+def _run(case, prefix, ncu, consumable):
+    gt, ranks, thunk = (_prep_nest2 if case["kind"] == "nest2" else _prep_kernel)(case)
     Metrics.setNumCachedUses(ncu)
     Metrics.beginCollect(prefix)
     for r in ranks:
@@ -261,7 +474,7 @@ def _run(case, prefix, ncu, consumable):
                 Metrics.trace(r, type_=tt)
             else:
                 Metrics.trace(r, type_=tt, consumable=consumable)
-    kernels.execute(spec, tensors, Z, lvars, zl, observer=gt)
+    thunk()
     files = {}
     mem = {}
     if consumable:
@@ -307,7 +520,7 @@ def run_case(case, mon):
             _run_bounded(case, mon, os.path.join(tmp, "b"))
         elif case["kind"] == "stale":
             _run_stale(case, mon, os.path.join(tmp, "r"))
-        else:
+        else:       # "kernel", "nest2"
             _run_kernel(case, mon, os.path.join(tmp, "k"))
     finally:
         try:
@@ -320,8 +533,17 @@ def run_case(case, mon):
 
 
 def _run_kernel(case, mon, prefix):
-    spec = case["spec"]
-    desc = f"{spec['ops']}->{spec['out']!r} order={spec['order']} tiles={spec['tiles']} fmts={spec.get('fmts')} dirty={bool(case.get('dirty'))}"
+    if case["kind"] == "nest2":
+        desc = (f"for m ({case['outer']}{case.get('range') if case['outer'] == 'zrange' else ''}): for k in "
+                f"{'z_k << ' if case['populate'] else ''}{case['expr']} over {[(n, d) for n, (d, _) in case['ops'].items()]}, "
+                f"expressions built {'ahead of' if case['prepared'] else 'inside'} the collection; zinit={bool(case.get('zinit'))} "
+                f"zfmt={case.get('zfmt')} dirty={bool(case.get('dirty'))}")
+        st = ("nest2", case["outer"], str(case["expr"]), case["populate"], case["prepared"])
+    else:
+        spec = case["spec"]
+        desc = (f"{spec['ops']}->{spec['out']!r} order={spec['order']} tiles={spec['tiles']} fmts={spec.get('fmts')} "
+                f"style={spec['style']}{'' if case.get('nested_and', True) else '/Fiber.intersection'} dirty={bool(case.get('dirty'))}")
+        st = (str(spec["ops"]), spec["out"])
     try:
         gt, files, ranks = _run(case, prefix, 1000, False)
     except BaseException as e:      # noqa
@@ -363,6 +585,9 @@ def _run_kernel(case, mon, prefix):
                 data.append((tuple(vals[:nr]), tuple(vals[nr:2 * nr]), vals[-1]))
             if bad:
                 continue
+            if not data and n_expected:
+                mon.violation(f"{_tkind(tt)}:missing-rows", f"trace {R}/{tt} holds its header only but {n_expected} traced accesses happened; {desc}")
+                continue
             if len(data) >= 2:
                 big += 1
             # stamp order
@@ -374,6 +599,16 @@ def _run_kernel(case, mon, prefix):
                     break
             else:
                 mon.count("oracle_evals")
+            # the right accesses in the right order, but filed under other coordinates of the enclosing loop ranks
+            if not any(v["inserting"] for v in visits):
+                want_flat = [(v["prefix"], c) for v in visits for c, _, _ in v["rows"]]
+                got_flat = [(pt[:-1], pt[-1]) for _, pt, _ in data]
+                if [c for _, c in want_flat] == [c for _, c in got_flat] and want_flat != got_flat:
+                    k = [a == b for a, b in zip(want_flat, got_flat)].index(False)
+                    mon.violation(f"{_tkind(tt)}:enclosing-coordinates",
+                                  f"trace {R}/{tt}: the access to element {want_flat[k][1]} made at {want_flat[k][0]} of the enclosing "
+                                  f"ranks is filed under {got_flat[k][0]}; {desc}")
+                    continue
             # group rows by loop-point prefix (= one visit of this level)
             groups = []
             for st, pt, pos in data:
@@ -406,7 +641,7 @@ def _run_kernel(case, mon, prefix):
                     continue
                 mon.count("rows_matched", len(want_c))
                 for (c, pos), (_, raw, ordinal) in zip(got, v["rows"]):
-                    if pos == raw:
+                    if raw is None or pos == raw:       # (a probe that found nothing addresses no element)
                         continue
                     if ordinal is not None and pos == ordinal and raw != ordinal:
                         mon.violation(f"{_tkind(tt)}:position-counts-nonempty-elements-only",
@@ -442,7 +677,14 @@ def _run_kernel(case, mon, prefix):
             mon.count("oracle_evals")
     if big >= 2:
         mon.nontrivial()
-    mon.state((str(spec["ops"]), spec["out"], big))
+    mon.count("nested_intersection_visits", gt.stats["nested"])
+    mon.count("leader_follower_visits", gt.stats["lf"])
+    mon.count("wide_coiteration_visits", gt.stats["wide"])
+    if case["kind"] == "nest2":
+        mon.count("dense_ref_outer_nests", int(case["outer"] != "sparse"))
+        mon.count("prepared_ahead_nests", int(bool(case["prepared"])))
+        mon.count("prepared_ahead_leader_follower_nests", int(bool(case["prepared"]) and _has_lf(case["expr"])))
+    mon.state(st + (big,))
 
 
 def _tkind(tt):
